@@ -106,7 +106,7 @@ func init() {
 			return []core.Section{
 				{Name: "layout-trees", N: n, Run: func(c *core.Ctx, i int) {
 					lc := genLayoutTree(c, i)
-					st := exprLayouts[i%2].st(c.Rng)
+					st := exprLayouts[[]int{0, 1, 3, 0}[i%4]].st(c.Rng)
 					files := lc.tree.sources(st)
 					tpl, err := loadTree(c, strings.TrimPrefix(strings.TrimSuffix(lc.tree.dir, "/"), "./"), files, lc.tree.ext)
 					key := fmt.Sprint(files)
